@@ -1,7 +1,103 @@
 package sd
 
-import "verifharness/vh"
+import (
+	"fmt"
+	"sync"
+	"time"
 
-// GenSched / ExecSched: forced schedules of the asynchronous broker (filled in below).
-func GenSched(g *vh.Gen)            {}
-func ExecSched(in []string) []string { return []string{"TODO"} }
+	"github.com/inbucket/inbucket/v3/pkg/extension"
+	"github.com/inbucket/inbucket/v3/pkg/extension/event"
+	"verifharness/vh"
+)
+
+// Forced schedules of the asynchronous broker (C16 listener_serial):
+//
+//	sched <n> <b> <brokers>
+//
+// n events are emitted back to back on the AfterMessageStored broker (brokers=1) or alternately
+// on the stored and deleted brokers (brokers=2, one listener function per broker); the listener's
+// invocation for event number b does not return until a LATER invocation of the same listener
+// has begun or 150 ms have passed. With a broker that serialises a listener the wait always
+// times out; with one goroutine per event the later invocation begins at once.
+// Output: ser=<0|1> (no two invocations of one listener overlapped) ord=<0|1> (each listener
+// saw its events in emit order) n=<number of invocations>.
+
+// GenSched emits the schedule cases.
+func GenSched(g *vh.Gen) {
+	for i := 0; i < g.N(12, 200); i++ {
+		n := 2 + g.Intn(6)
+		g.Emit("sched", vh.I(n), vh.I(g.Intn(n-1)), vh.I(1+g.Intn(2)))
+	}
+}
+
+// ExecSched runs one schedule case.
+func ExecSched(in []string) []string {
+	n, b, brokers := vh.AtoI(in[0]), vh.AtoI(in[1]), vh.AtoI(in[2])
+	h := extension.NewHost()
+	var mu sync.Mutex
+	inside := map[int]int{} // listener -> running invocations
+	seen := map[int][]int{} // listener -> event numbers in call order
+	began := map[int]chan struct{}{0: make(chan struct{}, 64), 1: make(chan struct{}, 64)}
+	serial := true
+	var wg sync.WaitGroup
+	wg.Add(n)
+	mk := func(l int) func(event.MessageMetadata) {
+		return func(m event.MessageMetadata) {
+			num := int(m.Size)
+			mu.Lock()
+			inside[l]++
+			if inside[l] > 1 {
+				serial = false
+			}
+			seen[l] = append(seen[l], num)
+			mu.Unlock()
+			if num != b {
+				select {
+				case began[l] <- struct{}{}:
+				default:
+				}
+			} else {
+				select {
+				case <-began[l]:
+				case <-time.After(150 * time.Millisecond):
+				}
+			}
+			mu.Lock()
+			inside[l]--
+			mu.Unlock()
+			wg.Done()
+		}
+	}
+	h.Events.AfterMessageStored.AddListener("verif", mk(0))
+	h.Events.AfterMessageDeleted.AddListener("verif", mk(1))
+	for i := 0; i < n; i++ {
+		ev := event.MessageMetadata{Mailbox: "m", ID: fmt.Sprint(i), Size: int64(i)}
+		// the blocking event and everything after it stay on one broker, so that "later
+		// invocation of the same listener" exists
+		if brokers == 2 && i < b && i%2 == 1 {
+			h.Events.AfterMessageDeleted.Emit(&ev)
+		} else {
+			h.Events.AfterMessageStored.Emit(&ev)
+		}
+	}
+	done := make(chan struct{})
+	go func() { wg.Wait(); close(done) }()
+	select {
+	case <-done:
+	case <-time.After(10 * time.Second):
+		return []string{"TIMEOUT"}
+	}
+	mu.Lock()
+	defer mu.Unlock()
+	ordered := true
+	count := 0
+	for _, s := range seen {
+		count += len(s)
+		for i := 1; i < len(s); i++ {
+			if s[i] < s[i-1] {
+				ordered = false
+			}
+		}
+	}
+	return []string{"ser=" + vh.B(serial), "ord=" + vh.B(ordered), "n=" + vh.I(count)}
+}
